@@ -27,11 +27,11 @@ import (
 
 func init() {
 	Register(&Property{
-		ID:   "C10",
-		Run:  runC10,
-		Rule: "runs = one server state (report sets at window edges incl. banned slots, 0-6 authorized servers with location lengths 0-255 and ban flags, with/without a migration order with 0-4 new servers, after 0-2 rotations) x one genuine sync (independent decoder == server snapshot == client parser) x 40 (quick) / all-bit (thorough) tamperings: single-bit flips (all of prefix, timestamp, signature; sampled elsewhere), truncation at field boundaries, extension, rewritten length prefix, re-signing under every other key, timestamp shifts to +-86400/+-86401 s, reply bound to another device, server entries / migration orders with missing or foreign GCA signatures; every tampered reply must be rejected with client state and files unchanged; non-trivial = at least 5 tampering kinds were applied to a reply carrying servers or a migration; distinct = distinct decision signatures",
-		Real: []string{"server sync handler (reply construction and signing)", "client staticServerSync (request, reply parser, freshness, signature, key binding, migration and per-server GCA signatures)"},
-		Stub: []string{"TCP (simulated connection; the fabric records and tampers)"},
+		ID:             "C10",
+		Run:            runC10,
+		Rule:           "runs = one server state (report sets at window edges incl. banned slots, 0-6 authorized servers with location lengths 0-255 and ban flags, with/without a migration order with 0-4 new servers, after 0-2 rotations) x one genuine sync (independent decoder == server snapshot == client parser) x 40 (quick) / all-bit (thorough) tamperings: single-bit flips (all of prefix, timestamp, signature; sampled elsewhere), truncation at field boundaries, extension, rewritten length prefix, re-signing under every other key, timestamp shifts to +-86400/+-86401 s, reply bound to another device, server entries / migration orders with missing or foreign GCA signatures; every tampered reply must be rejected with client state and files unchanged; non-trivial = at least 5 tampering kinds were applied to a reply carrying servers or a migration; distinct = distinct decision signatures",
+		Real:           []string{"server sync handler (reply construction and signing)", "client staticServerSync (request, reply parser, freshness, signature, key binding, migration and per-server GCA signatures)"},
+		Stub:           []string{"TCP (simulated connection; the fabric records and tampers)"},
 		RequiredProbes: []string{"c10.genuine", "c10.genuine.migration", "c10.genuine.servers", "c10.refusal", "c10.tamper.bitflip", "c10.tamper.resign", "c10.tamper.time-accept", "c10.tamper.time-reject", "c10.tamper.foreign-server-sig", "c10.tamper.bad-migration", "c10.tamper.other-device", "c10.tamper.prefix"},
 	})
 }
